@@ -336,6 +336,29 @@ func (c *Ctx) hugeInputs(name string) []wfInput {
 			out = append(out, nwkInput([]*newick.Node{tree1(string(a)), tree1("x y " + string(b)), tree1("r", tree1(string(a3)), tree1("it's"))}, d))
 		}
 	}
+	if name == "bed" {
+		// block lists whose TEXT is longer than 64 KiB / 128 KiB (10000 and 20000 blocks of six-digit values)
+		for _, nb := range []int{10000, 20000} {
+			sizes, starts := make([]int, nb), make([]int, nb)
+			for j := range sizes {
+				sizes[j], starts[j] = 100000+j, 200000+7*j
+			}
+			for _, N := range []int{11, 12} {
+				r := &bed.BED{N: N, Chrom: "c", ChromStart: 1, ChromEnd: 9000000, Name: "n", Score: 5, Strand: "+", ThickStart: 2, ThickEnd: 3, ItemRGB: [3]byte{1, 2, 3}, BlockCount: nb, BlockSizes: sizes}
+				if N == 12 {
+					r.BlockStarts = starts
+				}
+				small := func(ch string) *bed.BED {
+					s := &bed.BED{N: N, Chrom: ch, ChromStart: 1, ChromEnd: 90, Name: "s", Score: 1, Strand: "-", ThickStart: 2, ThickEnd: 3, ItemRGB: [3]byte{4, 5, 6}, BlockCount: 2, BlockSizes: []int{1, 2}}
+					if N == 12 {
+						s.BlockStarts = []int{0, 5}
+					}
+					return s
+				}
+				out = append(out, bedInput([]*bed.BED{small("a"), r, small("z")}, fmt.Sprintf("a %d-field line with %d blocks", N, nb)))
+			}
+		}
+	}
 	for _, L := range []int{100000, 131073, 270000} {
 		run := bytes.Repeat([]byte("ACGT"), L/4+1)[:L]
 		d := fmt.Sprintf("a field of %d bytes", L)
@@ -363,7 +386,7 @@ func (c *Ctx) hugeInputs(name string) []wfInput {
 // fixed-size pieces sees a piece boundary fall exactly on the end of a line.
 func (c *Ctx) exactLineInputs(name string) []wfInput {
 	var out []wfInput
-	sizes := []int{1 << 16, 1 << 18, 1 << 20}
+	sizes := []int{1 << 15, 1 << 16, 1 << 17, 1 << 18, 1 << 20}
 	if c.thor {
 		sizes = []int{1 << 12, 1 << 13, 1 << 15, 1 << 16, 1 << 17, 1 << 18, 1 << 19, 1 << 20, 3 << 18}
 	}
@@ -717,6 +740,10 @@ func deliveryCases(c *Ctx, f *format) {
 		try(bufio.NewReaderSize(bytes.NewReader(in.data), 16), "as a *bufio.Reader with a 16-byte buffer")
 		try(bytes.NewBuffer(append([]byte(nil), in.data...)), "as a *bytes.Buffer")
 		try(strings.NewReader(string(in.data)), "as a *strings.Reader")
+		if len(in.data) >= 50000 && len(in.data) < 300000 && !bytes.Contains(in.data, []byte("\r")) && !strings.HasPrefix(in.desc, "raw:") && f.name != "newick" {
+			// long inputs too, delivered whole: a CR that falls on the last byte of a reader's fragment is still a terminator
+			try(bytes.NewReader(crlf(in.data)), "with CRLF line terminators (long lines)")
+		}
 		if len(in.data) < 50000 && !bytes.Contains(in.data, []byte("\r")) && !strings.HasPrefix(in.desc, "raw:") {
 			cr := crlf(in.data)
 			if f.name == "newick" {
@@ -1083,6 +1110,7 @@ func refCanonical(s []byte, k int) []string {
 func sequtilRound4_12(c *Ctx) {
 	sequtilWarmUp()
 	canonNearPalindromes(c)
+	canonRetainedHuge(c)
 	canonReusedIterator(c)
 	canonLongBufferReused(c)
 	rcHugeInvalid(c)
@@ -1483,6 +1511,7 @@ func sequtilRound4_13(c *Ctx) {
 func sequtilRound4_14(c *Ctx) {
 	sequtilWarmUp()
 	translateLongBytes(c)
+	translateCaseTails(c)
 	// every byte value at every position of a 12-base sequence, through Translate and the reading frames
 	base := []byte("ACGacgTTTtga")
 	for v := 0; v < 256; v++ {
@@ -2745,6 +2774,7 @@ func canonHugeStops(c *Ctx) {
 
 // nestedTraversals: traversals started while another is running, inner ones stopped early, on the same tree
 func nestedTraversals(c *Ctx) {
+	traverseAfterEdit(c)
 	for i := 0; i < c.n(20); i++ {
 		n := 6 + c.rng.Intn(40)
 		nodes := make([]*newick.Node, n)
@@ -3401,6 +3431,7 @@ func runTrieHistoryQuiet(c *Ctx, ops []string, probes []string, kind string) {
 // a failed lookup that matched a prefix, then a Delete that prunes that prefix's node, then an Add below the prefix;
 // an iteration, then one child of a node replaced by another (Delete + Add), then an iteration; lookups between.
 func trieRound11(c *Ctx) {
+	trieNestedForEach(c)
 	for i := 0; i < c.n(30); i++ {
 		al := []byte("acgt")
 		p := c.bytesFrom(al, 1+c.rng.Intn(8))
@@ -3544,5 +3575,300 @@ func regionsRound12(c *Ctx) {
 			oracle = "NewIndex/At panicked with several indexes alive"
 		}
 		c.add(Case{Kind: "regions-two-indexes", Nontrivial: true, Oracle: oracle, Note: fmt.Sprintf("an index over %d intervals asked again after each of four more indexes is built", na)})
+	}
+}
+
+// translateCaseTails: upper-case sequences of every length 3..200 whose LAST 1..9 bases (or first, or one in the middle)
+// are lower-case: the translation is that of the upper-cased sequence.  Case handling done a machine word at a time
+// goes wrong in the bytes that do not fill a word.
+func translateCaseTails(c *Ctx) {
+	bad := ""
+	n := 0
+	for L := 3; L <= 200 && bad == ""; L++ {
+		up := c.bytesFrom([]byte("ACGT"), L)
+		want := safe(func() string { return hx(sequtil.Translate(nil, up)) })
+		for r := 1; r <= 9 && r <= L && bad == ""; r++ {
+			for _, where := range []string{"last", "first", "middle"} {
+				s := append([]byte(nil), up...)
+				from := L - r
+				switch where {
+				case "first":
+					from = 0
+				case "middle":
+					from = (L - r) / 2
+				}
+				for j := from; j < from+r; j++ {
+					s[j] |= 0x20
+				}
+				n++
+				if got := safe(func() string { return hx(sequtil.Translate(nil, s)) }); got != want {
+					bad = fmt.Sprintf("Translate of %d bases, upper-case except the %s %d: %s, the upper-case sequence gives %s", L, where, r, trunc(got, 40), trunc(want, 40))
+					break
+				}
+			}
+		}
+	}
+	c.add(Case{Kind: "translate-case-tails", Nontrivial: true, Oracle: bad, Note: fmt.Sprintf("Translate on %d sequences of 3..200 bases with a lower-case stretch at the end, start or middle", n)})
+}
+
+// traverseAfterEdit (C19): a complete traversal, then an edit that keeps the same root (a leaf added, two children
+// swapped, a subtree removed), then a traversal again: every traversal is of the tree AS IT IS NOW.
+func traverseAfterEdit(c *Ctx) {
+	for i := 0; i < c.n(12); i++ {
+		n := 5 + c.rng.Intn(30)
+		nodes := make([]*newick.Node, n)
+		for j := range nodes {
+			nodes[j] = &newick.Node{Name: fmt.Sprint(j)}
+			if j > 0 {
+				p := c.rng.Intn(j)
+				nodes[p].Children = append(nodes[p].Children, nodes[j])
+			}
+		}
+		root := nodes[0]
+		oracle := ""
+		check := func(when string) {
+			for _, pre := range []bool{true, false} {
+				var got, want []string
+				it := root.PostOrder()
+				if pre {
+					it = root.PreOrder()
+					recPre(root, &want)
+				} else {
+					recPost(root, &want)
+				}
+				for x := range it {
+					got = append(got, x.Name)
+					if len(got) > 4*n+16 {
+						break
+					}
+				}
+				if strings.Join(got, ",") != strings.Join(want, ",") && oracle == "" {
+					oracle = fmt.Sprintf("%s (pre=%v): the traversal yields %s, the tree is %s", when, pre, trunc(strings.Join(got, ","), 80), trunc(strings.Join(want, ","), 80))
+				}
+			}
+		}
+		st := safe(func() string {
+			check("first traversal")
+			p := nodes[c.rng.Intn(n)]
+			p.Children = append(p.Children, &newick.Node{Name: "new"})
+			check("after a leaf was added below the same root")
+			for _, q := range nodes {
+				if len(q.Children) >= 2 {
+					q.Children[0], q.Children[1] = q.Children[1], q.Children[0]
+					break
+				}
+			}
+			check("after two children were swapped")
+			for _, q := range nodes {
+				if len(q.Children) >= 1 {
+					q.Children = q.Children[1:]
+					break
+				}
+			}
+			check("after a subtree was removed")
+			return ""
+		})
+		if st == "PANIC" && oracle == "" {
+			oracle = "a traversal panicked after the tree was edited"
+		}
+		c.add(Case{Kind: "traverse-after-edit", Nontrivial: true, Oracle: oracle, Note: fmt.Sprintf("%d-node tree traversed, edited below the same root, traversed again", n)})
+	}
+}
+
+// trieNestedForEach (C15/C18): ForEach started from inside a ForEach callback on the same trie, after an earlier
+// complete ForEach: the outer iteration still reports every member exactly once.
+func trieNestedForEach(c *Ctx) {
+	for i := 0; i < c.n(6); i++ {
+		t := trie.New()
+		members := map[string]bool{}
+		for k := 0; k < 3+c.rng.Intn(10); k++ {
+			s := c.bytesFrom([]byte("abc"), 1+c.rng.Intn(6))
+			t.Add(s)
+		}
+		full, _ := trieMembers(t) // a first, complete iteration
+		for _, m := range strings.Split(strings.TrimPrefix(full, "e:"), ",") {
+			members[m] = true
+		}
+		oracle := ""
+		st := safe(func() string {
+			outer := map[string]int{}
+			t.ForEach(func(b []byte) bool {
+				outer[hx(b)]++
+				inner := map[string]int{}
+				stopAt := 1 + len(outer)%3
+				t.ForEach(func(b2 []byte) bool {
+					inner[hx(b2)]++
+					return len(inner) < stopAt+len(members) // every third inner run stops early
+				})
+				for k, v := range inner {
+					if v != 1 || !members[k] {
+						oracle = "an iteration started inside another iteration's callback reports a wrong or repeated member"
+					}
+				}
+				return len(outer) <= 4*len(members)
+			})
+			for k := range members {
+				if outer[k] != 1 && oracle == "" {
+					oracle = fmt.Sprintf("with iterations of the same trie running inside its callback, the outer ForEach reports member %s %d times", k, outer[k])
+				}
+			}
+			if len(outer) != len(members) && oracle == "" {
+				oracle = fmt.Sprintf("with iterations of the same trie running inside its callback, the outer ForEach reports %d members of %d", len(outer), len(members))
+			}
+			return ""
+		})
+		if st == "PANIC" && oracle == "" {
+			oracle = "nested ForEach on one trie panicked"
+		}
+		c.add(Case{Kind: "trie-nested-foreach", Nontrivial: true, Oracle: oracle, Note: fmt.Sprintf("ForEach inside ForEach on a trie with %d members, after a complete ForEach", len(members))})
+	}
+}
+
+// canonRetainedHuge (C12): every item yielded for a sequence with more than 2^20 windows is KEPT (not copied) and
+// checked after the loop: what was handed over stays what it was.
+func canonRetainedHuge(c *Ctx) {
+	n, k := 1<<20+1500, 21
+	s := c.bytesFrom([]byte("ACGT"), n)
+	comp := func(b byte) byte { return "TGCA"[strings.IndexByte("ACGT", b)] }
+	var items [][]byte
+	st := safe(func() string {
+		for x := range sequtil.CanonicalSubsequences(s, k) {
+			items = append(items, x)
+		}
+		return ""
+	})
+	oracle := ""
+	if st == "PANIC" {
+		oracle = "CanonicalSubsequences panicked on a long sequence"
+	} else if len(items) != n-k+1 {
+		oracle = fmt.Sprintf("CanonicalSubsequences over %d bases yields %d items, want %d", n, len(items), n-k+1)
+	} else {
+		rc := make([]byte, k)
+		for i, it := range items {
+			w := s[i : i+k]
+			for j := 0; j < k; j++ {
+				rc[j] = comp(w[k-1-j])
+			}
+			want := w
+			if bytes.Compare(rc, w) < 0 {
+				want = rc
+			}
+			if !bytes.Equal(it, want) {
+				oracle = fmt.Sprintf("CanonicalSubsequences over %d bases: item %d, looked at after the loop, is %q, the smaller of the window and its reverse complement is %q", n, i, it, want)
+				break
+			}
+		}
+	}
+	c.add(Case{Kind: "canon-retained-huge", Nontrivial: true, Oracle: oracle, Note: fmt.Sprintf("CanonicalSubsequences(%d bases, %d): all items kept and checked after the loop", n, k)})
+}
+
+// limitByteWriter is a limitWriter that also offers WriteByte and WriteString (as *bufio.Writer, *bytes.Buffer and
+// *os.File-backed writers do): code that special-cases such destinations must report their failures all the same.
+type limitByteWriter struct{ limitWriter }
+
+func (w *limitByteWriter) WriteByte(b byte) error {
+	_, err := w.Write([]byte{b})
+	return err
+}
+func (w *limitByteWriter) WriteString(s string) (int, error) { return w.Write([]byte(s)) }
+
+// bigRecordWriteFaults (C07): records of more than 1 MiB (fasta, fastq, sam, bed, newick) written to destinations that
+// fail after k bytes, k sampled near the start, the middle and densely in the last 16 KiB and the last bytes; the
+// same for ordinary records with destinations that also implement io.ByteWriter / io.StringWriter, every k.
+func bigRecordWriteFaults(c *Ctx) {
+	big := bytes.Repeat([]byte("ACGT"), (1<<20)/4+1500)
+	type rec struct {
+		name  string
+		write func(io.Writer) error
+	}
+	recs := []rec{
+		{"fasta", (&fasta.Fasta{Name: []byte("big"), Sequence: big}).Write},
+		{"fastq", (&fastq.Fastq{Name: []byte("big"), Sequence: big, Quals: bytes.Repeat([]byte("I"), len(big))}).Write},
+		{"bed", (&bed.BED{N: 4, Chrom: "c", ChromStart: 1, ChromEnd: 2, Name: string(big)}).Write},
+		{"newick", tree1("r", tree1(string(big)), tree1("b")).Write},
+	}
+	sr := plainSam("big")
+	sr.Seq = string(big)
+	recs = append(recs, rec{"sam", sr.Write})
+	for _, r := range recs {
+		var full bytes.Buffer
+		if err := r.write(&full); err != nil {
+			c.add(Case{Kind: "big-write-fault", Nontrivial: true, Oracle: r.name + ": Write of a record of more than 1 MiB into a bytes.Buffer failed: " + err.Error()})
+			continue
+		}
+		total := full.Len()
+		ks := []int{0, 1, 2, 4095, 4096, 65535, 65536, total / 2, total - 70000, total - 65537, total - 65536}
+		for k := total - 16500; k < total; k += 509 {
+			ks = append(ks, k)
+		}
+		for k := total - 40; k <= total; k++ {
+			ks = append(ks, k)
+		}
+		bad := ""
+		for _, k := range ks {
+			if k < 0 || bad != "" {
+				continue
+			}
+			for _, byteW := range []bool{false, true} {
+				var err error
+				var got []byte
+				st := safe(func() string {
+					if byteW {
+						w := &limitByteWriter{limitWriter{k: k}}
+						err = r.write(w)
+						got = w.got
+					} else {
+						w := &limitWriter{k: k}
+						err = r.write(w)
+						got = w.got
+					}
+					return ""
+				})
+				switch {
+				case st == "PANIC":
+					bad = fmt.Sprintf("Write panicked when the destination failed after %d of %d bytes", k, total)
+				case k < total && err == nil:
+					bad = fmt.Sprintf("Write returned nil although the destination (ByteWriter=%v) failed after %d of %d bytes", byteW, k, total)
+				case k >= total && err != nil:
+					bad = fmt.Sprintf("Write returned an error although the destination accepted all %d bytes", total)
+				case !bytes.HasPrefix(full.Bytes(), got):
+					bad = fmt.Sprintf("the bytes accepted before the failure at %d are not a prefix of the record's text", k)
+				}
+			}
+		}
+		if bad != "" {
+			bad = r.name + ", a record of more than 1 MiB: " + bad
+		}
+		c.add(Case{Kind: "big-write-fault", Nontrivial: true, Oracle: bad, Note: fmt.Sprintf("%s.Write of a %d-byte record to destinations failing after %d sampled offsets", r.name, total, len(ks))})
+	}
+	// ordinary records, destinations with WriteByte/WriteString, every k
+	ws := recordWriters(c)
+	for _, w := range ws {
+		if strings.Contains(w.name, "-long") || strings.Contains(w.name, "-exact") {
+			continue
+		}
+		for i := 0; i < 3; i++ {
+			write, full := w.mk()
+			bad := ""
+			for k := 0; k <= len(full)+1 && bad == ""; k++ {
+				lw := &limitByteWriter{limitWriter{k: k}}
+				var err error
+				st := safe(func() string { err = write(lw); return "" })
+				switch {
+				case st == "PANIC":
+					bad = fmt.Sprintf("Write panicked (destination with WriteByte/WriteString failing after %d bytes)", k)
+				case k < len(full) && err == nil:
+					bad = fmt.Sprintf("Write returned nil although the destination (which also has WriteByte/WriteString) failed after %d of %d bytes", k, len(full))
+				case k >= len(full) && err != nil:
+					bad = "Write returned an error although everything was accepted"
+				case !bytes.HasPrefix(full, lw.got):
+					bad = "the bytes accepted before the failure are not a prefix of the record's text"
+				}
+			}
+			if bad != "" {
+				bad = w.name + ": " + bad
+			}
+			c.add(Case{Kind: "bytewriter-fault", Nontrivial: true, Oracle: bad, Note: fmt.Sprintf("%s.Write to a destination with WriteByte/WriteString failing after every k <= %d", w.name, len(full)+1)})
+		}
 	}
 }
